@@ -28,6 +28,29 @@ class InitErr(Exception):
         self.code = code
 
 
+class FalsyStageErr(StageErr):
+    """a falsy exception object (container-like): still a failure"""
+    def __len__(self):
+        return 0
+
+
+class FalsyPreErr(PreErr):
+    def __bool__(self):
+        return False
+
+
+def stage_err(code):
+    return (FalsyStageErr if code % 4 == 3 else StageErr)(code)
+
+
+def pre_err(code):
+    return (FalsyPreErr if code % 4 == 1 else PreErr)(code)
+
+
+def err_class_name(code, pre):
+    return ('FalsyPreErr' if code % 4 == 1 else 'PreErr') if pre else ('FalsyStageErr' if code % 4 == 3 else 'StageErr')
+
+
 # ---- servlet tree descriptions -----------------------------------------------------------------
 # leaf: {'t': 'leaf', 'k': stage id, 'n': threads, 'b': batch_size, 'fail': {x: code}, 'pre_fail': {x: code}, 'init_fail': worker index|None}
 # seq:  {'t': 'seq', 'c': [trees]}   ens: {'t': 'ens', 'c': [trees], 'ff': bool}   sw: {'t': 'sw', 'c': [trees]}
@@ -183,7 +206,7 @@ def build(tree, S, calls_log):
 
             def _pre(self, x):
                 if isinstance(x, int) and x in pre_fail:
-                    raise PreErr(pre_fail[x])
+                    raise pre_err(pre_fail[x])
                 return x
 
             def call(self, x):
@@ -195,11 +218,11 @@ def build(tree, S, calls_log):
                     out = []
                     for e in x:
                         if isinstance(e, int) and e in fail:
-                            raise StageErr(fail[e])       # a failing element fails the whole batch
+                            raise stage_err(fail[e])       # a failing element fails the whole batch
                         out.append(leaf_fn(k, e))
                     return out
                 if isinstance(x, int) and x in fail:
-                    raise StageErr(fail[x])
+                    raise stage_err(fail[x])
                 return leaf_fn(k, x)
 
         W.__name__ = f'W{k}'
